@@ -32,8 +32,8 @@ theorem C18_model_constants_agree :
 
 theorem C18_slot_and_bucket_layout :
     Generated.bucketMarshal =
-      [("put", 32, "-", "4", "sl.hash"), ("put", 16, "4", "6", "sl.segmentID"), ("put", 16, "6", "8", "sl.keySize"),
-       ("put", 32, "8", "12", "sl.valueSize"), ("put", 32, "12", "16", "sl.offset"), ("put", 64, "-", "8", "uint64(b.next)")] ∧
+      [("put", 32, "-", "4", ".hash"), ("put", 16, "4", "6", ".segmentID"), ("put", 16, "6", "8", ".keySize"),
+       ("put", 32, "8", "12", ".valueSize"), ("put", 32, "12", "16", ".offset"), ("put", 64, "-", "8", ".next")] ∧
     Generated.bucketUnmarshal =
       [("get", 32, "-", "4", ""), ("get", 16, "4", "6", ""), ("get", 16, "6", "8", ""),
        ("get", 32, "8", "12", ""), ("get", 32, "12", "16", ""), ("get", 64, "-", "8", "")] ∧
@@ -41,13 +41,13 @@ theorem C18_slot_and_bucket_layout :
   decide
 
 theorem C18_header_layout :
-    Generated.headerMarshal = [("copy", 0, "-", "8", "h.signature[:]"), ("put", 32, "8", "12", "h.formatVersion")] ∧
+    Generated.headerMarshal = [("copy", 0, "-", "8", ".signature[:]"), ("put", 32, "8", "12", ".formatVersion")] ∧
     Generated.headerUnmarshal = [("copy", 0, "-", "-", "data[:8]"), ("get", 32, "8", "12", "")] := by
   decide
 
 theorem C18_record_layout :
     Generated.recordEncode =
-      [("put", 16, "-", "2", "uint16(len(key))"), ("put", 32, "2", "-", "valLen"), ("copy", 0, "6", "-", "key"),
+      [("put", 16, "-", "2", "len(key)"), ("put", 32, "2", "-", "valLen"), ("copy", 0, "6", "-", "key"),
        ("copy", 0, "6 + len(key)", "-", "value"), ("crc", 32, "-", "6 + len(key) + len(value)", ""),
        ("put", 32, "size - 4", "size", "checksum")] ∧
     Generated.recordDecode =
